@@ -42,8 +42,14 @@ Shapes ==
     S7 |-> [fields |-> <<[n |-> "Base", emb |-> "Base"], [n |-> "K", v |-> VI(88)]>>, methods |-> {}],
     \* Cust (pointer receiver) hands out a pointer INTO its receiver; two instances (alt) differ in what it points at.  What
     \* printing that pointer gives is not stated (never judged), but a result once obtained must stay what it was
+    \* V promoted through four embedded structs (index path of five steps), U through two of them, next to a direct field
+    D1 |-> [fields |-> <<[n |-> "T", v |-> VI(12)], [n |-> "V", v |-> VS(<<118>>)]>>, methods |-> {}],
+    D2 |-> [fields |-> <<[n |-> "D1", emb |-> "D1"], [n |-> "U", v |-> VI(13)]>>, methods |-> {}],
+    D3 |-> [fields |-> <<[n |-> "R", v |-> VI(14)], [n |-> "D2", emb |-> "D2"]>>, methods |-> {}],
+    D4 |-> [fields |-> <<[n |-> "D3", emb |-> "D3"]>>, methods |-> {}],
+    S10 |-> [fields |-> <<[n |-> "Q", v |-> VI(15)], [n |-> "D4", emb |-> "D4"]>>, methods |-> {}],
     S9 |-> [fields |-> <<[n |-> "X", v |-> VI(91)]>>, methods |-> {[n |-> "Cust", v |-> [t |-> "embedded", sh |-> "Base"], ptr |-> TRUE]}] ]
-ShapeNames == {"S1", "S2", "S3", "S4", "S5", "S6", "S7"}
+ShapeNames == {"S1", "S2", "S3", "S4", "S5", "S6", "S7", "S10"}
 MapKinds == {"any", "mss", "msi", "mii"}        \* mii: map[interface{}]interface{}
 \* objects: a struct value, a pointer to it, or a map of one of three Go map types
 Objects == {[k |-> "struct", sh |-> sn, ptr |-> p, embnil |-> FALSE] : sn \in ShapeNames, p \in BOOLEAN}
@@ -53,7 +59,7 @@ Objects == {[k |-> "struct", sh |-> sn, ptr |-> p, embnil |-> FALSE] : sn \in Sh
            \cup {[k |-> "map", g |-> g, ptr |-> TRUE] : g \in {"any", "mss"}}        \* a pointer to a map
 \* (the untyped map also has the keys "0" and "" -- never looked up themselves: an absent key must not fall back to them)
 MapVal(g, n) == CASE n = "X" -> (IF g = "mss" THEN VS(<<120>>) ELSE VI(8)) [] n = "Y" -> (IF g = "mss" THEN VS(<<121>>) ELSE VI(9)) [] OTHER -> Null
-AttrNames == {"X", "Y", "Z", "W", "Q", "K", "Name", "PName", "AName", "ARename", "hidden", "nosuch", "x", "name", "Cust"} \cap NameSet    \* names are case-sensitive
+AttrNames == {"X", "Y", "Z", "W", "Q", "K", "Name", "PName", "AName", "ARename", "hidden", "nosuch", "x", "name", "Cust", "V", "U"} \cap NameSet    \* names are case-sensitive
 
 IsExported(n) == n \notin {"hidden"}
 
@@ -69,6 +75,8 @@ Resolve(sh, n) ==
     IF PathsAt(sh, n, 0) # {} THEN [kind |-> "field", path |-> CHOOSE p \in PathsAt(sh, n, 0) : TRUE]
     ELSE IF PathsAt(sh, n, 1) # {} THEN [kind |-> "field", path |-> CHOOSE p \in PathsAt(sh, n, 1) : TRUE]
     ELSE IF PathsAt(sh, n, 2) # {} THEN [kind |-> "field", path |-> CHOOSE p \in PathsAt(sh, n, 2) : TRUE]
+    ELSE IF PathsAt(sh, n, 3) # {} THEN [kind |-> "field", path |-> CHOOSE p \in PathsAt(sh, n, 3) : TRUE]
+    ELSE IF PathsAt(sh, n, 4) # {} THEN [kind |-> "field", path |-> CHOOSE p \in PathsAt(sh, n, 4) : TRUE]
     ELSE IF \E m \in Shapes[sh].methods : m.n = n THEN [kind |-> "method", path |-> <<>>, n |-> n]
     ELSE [kind |-> "none", path |-> <<>>]
 
